@@ -5,7 +5,7 @@ All functions take the Interp (for forking / facts) as first argument.
 import datetime
 import z3
 
-from .sym import (SymKeyDict, Sym, SBool, SInt, SReal, SDate, SStr, SOpaque, SList, SSet,
+from .sym import (SText, SymKeyDict, Sym, SBool, SInt, SReal, SDate, SStr, SOpaque, SList, SSet,
                   SMap, SObj, StrS, slen, str_lt, str_contains, str_cat,
                   Unsupported, is_numeric, num_z, to_real, pyfloat_to_z3)
 
@@ -151,6 +151,8 @@ def binop(it, op, a, b):
                     try:
                         return a % b
                     except TypeError:
+                        if getattr(it, 'structured_text', False):
+                            return SText([('fmt', a, b if isinstance(b, tuple) else (b,))])
                         return it.fresh_str('fmt')
                 return a % b
             if op == '**':
@@ -172,6 +174,15 @@ def binop(it, op, a, b):
         except ValueError as e:
             raise PyExc('ValueError', str(e))
         raise Unsupported('binop %s' % op)
+    # structured text (only when the contract under verification asks for it)
+    if getattr(it, 'structured_text', False):
+        if op == '%' and isinstance(a, str):
+            return SText([('fmt', a, b if isinstance(b, tuple) else (b,))])
+        if op == '+' and (isinstance(a, SText) or isinstance(b, SText)) and (
+                isinstance(a, (str, SStr, SText)) and isinstance(b, (str, SStr, SText))):
+            pa = a.parts if isinstance(a, SText) else [a]
+            pb = b.parts if isinstance(b, SText) else [b]
+            return SText(pa + pb)
     # string formatting / concatenation with symbolic parts -> opaque string
     if op == '%' and is_strlike(a):
         return it.fresh_str('fmt')
